@@ -1478,7 +1478,7 @@ class Interp:
 
 BUILTINS = {'len', 'range', 'min', 'max', 'abs', 'int', 'float', 'str', 'bool', 'list', 'tuple', 'dict', 'set', 'zip',
             'enumerate', 'isinstance', 'getattr', 'setattr', 'hasattr', 'delattr', 'print', 'sum', 'any', 'all', 'sorted',
-            'next', 'iter', 'map', 'type', 'round', 'complex', 'repr', 'reversed', 'super', 'id', 'callable', 'divmod'}
+            'next', 'iter', 'map', 'type', 'round', 'complex', 'repr', 'reversed', 'super', 'id', 'callable', 'divmod', 'open'}
 
 
 def run_function(qualname, make_args, pc0=(), summaries=None, opts=None, self_obj=None, max_paths=4000):
